@@ -847,3 +847,63 @@ func ruleX9(c *Ctx) {
 	}
 	c.check(len(bad) == 0, "lastTokenType is read only by lexToken", token.NoPos, fmt.Sprintf("%d reads, all in the dispatcher", n), "the previous token's type is consulted by "+strings.Join(uniq(bad), ", ")+": the same text is lexed differently (or rejected) depending on what precedes it, outside the three documented cases")
 }
+
+// ---- P3c a clause that binds nothing joins nothing ------------------------------------------------------------------------------------------
+
+func ruleP3c(c *Ctx) {
+	c.Rule("P3c", "a fully specified clause (no binding, no alias) only has to hold, wherever it stands in the pattern: in processClause's specificity-3 branch the table of the existence test is appended to the running table only after the running table's bindings were examined (Table.AppendTable refuses a table with other bindings, so an unconditional append makes the statement fail as soon as an earlier clause has bound something)", 1)
+	fn := c.mustFunc("bql/planner", "queryPlan.processClause")
+	if fn == nil {
+		return
+	}
+	fi := c.fi(fn)
+	n := 0
+	// path state: has the running table (p.tbl) been examined, or is the clause known to bring bindings of its own
+	// (the alias case, which is the known finding P4a and not this rule's business)?
+	mentionsRunning := func(t string) bool {
+		return strings.Contains(t, "param:p.tbl") && (strings.Contains(t, ".Bindings(") || strings.Contains(t, ".HasBinding(") || strings.Contains(t, ".NumRows("))
+	}
+	edge := func(st bool, b *ssa.BasicBlock, si int) (bool, bool) {
+		iff, ok := b.Instrs[len(b.Instrs)-1].(*ssa.If)
+		if !ok {
+			return st, true
+		}
+		t := c.term(iff.Cond)
+		if mentionsRunning(t) {
+			return true, true
+		}
+		// len(<existence table>.Bindings()) == 0 false, or > 0 true: the clause has bindings of its own
+		if strings.Contains(t, ".Bindings(") && strings.Contains(t, "simpleExist(") {
+			if bo, ok := iff.Cond.(*ssa.BinOp); ok {
+				hasOwn := (bo.Op == token.EQL && si == 1) || (bo.Op == token.GTR && si == 0) || (bo.Op == token.NEQ && si == 0)
+				if hasOwn {
+					return true, true
+				}
+			}
+		}
+		return st, true
+	}
+	_, at := flow(c, fn, false, func(st bool, _ ssa.Instruction) bool { return st }, edge)
+	allInstrs(fn, func(in ssa.Instruction) {
+		call, ok := in.(*ssa.Call)
+		if !ok || call.Call.StaticCallee() == nil || fnName(call.Call.StaticCallee()) != "AppendTable" {
+			return
+		}
+		spec3 := false
+		for _, ft := range fi.factsAt(in.Block()) {
+			t := c.term(ft.Cond)
+			if strings.Contains(t, "Specificity(") && strings.Contains(t, "== 3") && ft.Truth {
+				spec3 = true
+			}
+		}
+		if !spec3 {
+			return
+		}
+		n++
+		guarded := !at(in)[false]
+		c.check(guarded, "processClause appends a fully specified clause only after looking at the running table", in.Pos(), "every path to the append examined the running table's bindings (or the clause brings bindings of its own)", "the existence table of a fully specified clause is appended to the running table at "+c.pos(in.Pos())+" whatever that table already holds: with an earlier clause's bindings in it AppendTable returns an error, so { ?s \"p\"@[] ?o . /u<a> \"p\"@[] /u<b> } fails while the reversed order answers")
+	})
+	if n == 0 {
+		c.trivial("AppendTable in the fully specified branch", fn.Pos(), "the branch no longer appends")
+	}
+}
